@@ -78,7 +78,7 @@ func genC15() *rapid.Generator[c15Case] {
 			}
 			m := c15Step{Op: "merge"}
 			if chance(t, "mgfail", 75) {
-				m.FailKind = pick(t, "mgfk", []string{"CreateFile", "Write", "Close", "CloseAfter", "OpenFile", "Read"})
+				m.FailKind = pick(t, "mgfk", []string{"CreateFile", "Write", "Close", "CloseAfter", "OpenFile", "Read", "CancelCtx:CreateFile", "CancelCtx:Close", "CancelCtx:OpenFile"})
 				m.FailN = pick(t, "mgfn", []int{1, 1, 2, 3, 4, 6})
 			}
 			c.Steps = append(c.Steps, m)
@@ -439,10 +439,11 @@ func runC15(c c15Case) *Violation {
 	failN, failSeen := 0, map[string]int{}
 	var fmu sync.Mutex
 	failFired := false
+	var mergeCancel context.CancelFunc
 	tr.Before = func(ci *CallInfo) error {
 		fmu.Lock()
 		defer fmu.Unlock()
-		kind := failKind
+		kind := strings.TrimPrefix(failKind, "CancelCtx:")
 		after := false
 		if kind == "CloseAfter" {
 			// the writer's Close runs to completion (file published, directory
@@ -457,6 +458,13 @@ func runC15(c c15Case) *Violation {
 		failSeen[ci.Kind]++
 		if n == failN {
 			failFired = true
+			if failKind == "CancelCtx:"+ci.Kind {
+				// not a store failure: the Merge's own context is cancelled at this call
+				if mergeCancel != nil {
+					mergeCancel()
+				}
+				return nil
+			}
 			ci.FailAfter = after
 			return fmt.Errorf("%w (%s #%d)", errInjected, failKind, n)
 		}
@@ -525,7 +533,12 @@ func runC15(c c15Case) *Violation {
 				r.preMerge[n] = true
 			}
 			r.mu.Unlock()
-			eng.Merge(ctx)
+			mctx, mcancel := context.WithCancel(ctx)
+			fmu.Lock()
+			mergeCancel = mcancel
+			fmu.Unlock()
+			eng.Merge(mctx)
+			mcancel()
 			r.mu.Lock()
 			r.inMerge = false
 			r.mu.Unlock()
